@@ -290,9 +290,15 @@ def classify(job, parsed):
         out.update(status="undecided", reason="undetermined checks")
         return out
     if covers_unsat and not h.get("twin"):
-        names = ",".join(c["desc"] for c in covers_unsat)
-        out.update(status="undecided", reason=f"vacuity: cover(s) not satisfied: {names}")
-        return out
+        sat = [c for c in parsed["covers"] if c["status"] == "SATISFIED"]
+        if h.get("covers") == "any" and sat:
+            # outcome classes are shared by a family of shape instances: each instance must
+            # reach at least one, and the family as a whole must reach all (checked by the driver)
+            pass
+        else:
+            names = ",".join(c["desc"] for c in covers_unsat)
+            out.update(status="undecided", reason=f"vacuity: cover(s) not satisfied: {names}")
+            return out
     out.update(status="pass")
     return out
 
